@@ -264,6 +264,21 @@ theorem obj_reads_last (p : Path) (ops : List ObjOp) (fs : FS)
       rw [ih _ (fun s' hs => ht s' (List.mem_cons_of_mem _ hs)),
         atomic_store_exact p s.tmp (ht s (List.mem_cons_self ..)) s.new fs s.fault]
 
+/-- **the neighbours.** Whatever one store object does over its life — reads, stores, faulted stores, restarts —
+    every file of the directory other than the store's own file and the temp files of its stores keeps its content
+    (the other key share, a backup, any file whose name merely starts like the store's) -/
+theorem obj_frame (p : Path) (ops : List ObjOp) (fs : FS) (q : Path) (hp : q ≠ p)
+    (ht : ∀ s, ObjOp.store s ∈ ops → q ≠ s.tmp) : runObjFS p ops fs q = fs q := by
+  induction ops generalizing fs with
+  | nil => rfl
+  | cons o r ih =>
+    cases o with
+    | get => exact ih fs (fun s hs => ht s (List.mem_cons_of_mem _ hs))
+    | store s =>
+      simp only [runObjFS]
+      rw [ih _ (fun s' hs => ht s' (List.mem_cons_of_mem _ hs)),
+        atomic_store_frame p s.tmp s.new fs s.fault q hp (ht s (List.mem_cons_self ..))]
+
 /-- at the value level: with `decode (encode v) = some v`, store `a`, read, store `b`, read returns `a` then `b` -/
 theorem obj_store_get_store_get {V : Type} (encode : V → Bytes) (decode : Bytes → Option V)
     (hrt : ∀ v, decode (encode v) = some v) (p t : Path) (htp : t ≠ p) (fs : FS) (a b : V) :
